@@ -46,6 +46,8 @@ FnExprs(t) ==
              FnN("is_in", <<x, LitI(2)>>), FnN("is_in", <<x, LitI(2), LitI(-3)>>), FnN("is_in", <<x, y, LitI(0)>>),
              FnN("is_in", <<x, LitI(2), LitN>>), FnN("is_in", <<p, LitB(TRUE)>>),
              Fn3("clip", x, LitI(-2), LitI(3)), Fn3("clip", x, LitI(0), LitI(0)), Fn3("clip", y, LitI(1), LitI(65)),
+             Fn3("clip", x, LitF(1, 2), LitF(5, 2)), Fn3("clip", x, LitF(-5, 2), LitI(1)), Fn3("clip", f, LitI(0), LitI(1)),
+             Fn2("round", x, LitI(-1)), Fn2("round", y, LitI(-2)), Fn2("round", Fn2("mul", x, LitI(9)), LitI(-1)),
              FnN("hmax", <<p, q>>), FnN("hmin", <<p, q>>),
              FnN("hmin", <<x, y, LitI(1), Fn1("neg", x)>>), FnN("hmax", <<x, y, LitI(1), Fn1("neg", x)>>),
              FnN("hmin", <<LitI(7), Fn1("neg", y), y, x, LitI(3)>>), FnN("hmax", <<LitI(-7), Fn1("neg", y), y, x, LitN>>),
